@@ -1,7 +1,28 @@
 (* C06 -- Refinement moves a disparity by at most half a sample, never for the worse.
    Statements only; every proof is `exact <lemma>` from Proofs/RefineP.v.
-   Model: Model/Refine.v (mirrors pandora/refinement/{refinement,vfit,quadratic}.py);
-   Spec: Spec/Refine.v (written from the property text and the user guide). *)
+   Model: Model/Refine.v (mirrors pandora/refinement/{refinement,vfit,quadratic}.py of the tree under
+   test, i.e. WITH the three `fix:` commits of this property: `mask |= valid`, the |alpha| < 1e-15
+   guard of quadratic, the whole-sample room test of loop_refinement);
+   Spec: Spec/Refine.v (written from the property text and the user guide).
+   The witnesses of the three defects, on the models of the code as found, are the regression
+   Examples D3_before/after, D4_before/after, D13_before/after_dmin/dmax at the end of Proofs/RefineP.v.
+
+   How the clauses of the property map to the theorems (per pixel, hence for every image size):
+   * "differs from the disparity it received by at most half a sample", "stays inside the interval",
+     "coefficient never worse than the sample's cost"            : C06_pixel_props
+   * "equals the V-fit / parabola optimum of the three costs"    : C06_pixel_bit3_iff (second half: the
+     shift and cost are those of run_method on the three costs) + C06_vfit_closed_form,
+     C06_quad_closed_form (they are the closed forms) + C06_*_is_optimum, C06_*_unique
+   * "pixels flagged invalid are left untouched"                 : C06_pixel_invalid_untouched
+   * "left where it was, with bit 3 raised, exactly when ..."    : C06_pixel_bit3_iff
+   * "stays inside the PIXEL's interval" (per-pixel grids, sample received): C06_pixel_moved_costed
+   * "no other bit changes"                                      : C06_pixel_other_bits (any input),
+     C06_steps_total_and_flags (any number of steps)
+   * "the step is total"                                         : C06_vfit_total, C06_quad_total,
+     C06_pixel_total, C06_steps_total_and_flags.
+   "Reachable by a legal pipeline" is over-approximated by the invariant [pixel_ok]: one cost per
+   sample of [dmin,dmax], and a VALID pixel carries a number of [dmin,dmax] -- any rational, on or off
+   the sampling grid (winner-takes-all sample, filtered, interpolated, already refined). *)
 From Coq Require Import ZArith QArith Qabs List Bool.
 From Pandora Require Import Model.Refine Spec.Refine Proofs.RefineP Gen.RefineConsts.
 Import ListNotations.
@@ -47,10 +68,32 @@ Theorem C06_vfit_closed_form : forall m c0 c1 c2,
 Proof. exact (vfit_closed_form K). Qed.
 
 Theorem C06_quad_closed_form : forall m c0 c1 c2,
-  is_extremum (kind_of m) c0 c1 c2 -> ~ quad_a c0 c1 c2 == 0 ->
-  exists sh co, quadratic K m (Some c0) c1 (Some c2) = MOk sh co 0
-                /\ sh == quad_x c0 c1 c2 /\ co == quad_y c0 c1 c2.
+  is_extremum (kind_of m) c0 c1 c2 ->
+  (eps15 <= Qabs (quad_a c0 c1 c2) ->
+     exists sh co, quadratic K m (Some c0) c1 (Some c2) = MOk sh co 0
+                   /\ sh == quad_x c0 c1 c2 /\ co == quad_y c0 c1 c2)
+  /\ (Qabs (quad_a c0 c1 c2) < eps15 -> quadratic K m (Some c0) c1 (Some c2) = MOk 0 c1 0).
 Proof. exact (quad_closed_form K). Qed.
+
+(* neither method raises, whatever the triple (flat, tied, NaN-holed) and the measure: the only
+   division of each is behind its 1e-15 guard *)
+Theorem C06_vfit_total : forall m oc0 c1 oc2, vfit K m oc0 c1 oc2 <> MRaise.
+Proof. exact (vfit_total K). Qed.
+
+Theorem C06_quad_total : forall m oc0 c1 oc2, quadratic K m oc0 c1 oc2 <> MRaise.
+Proof. exact (quad_total K). Qed.
+
+(* a method answers "stopped" (shift 0, cost of the sample, flag bit 3) as soon as a neighbour is NaN
+   or the centre is not an extremum; otherwise its flag is 0 *)
+Theorem C06_method_stop : forall me m oc0 c1 oc2,
+  (oc0 = None \/ oc2 = None
+   \/ exists c0 c2, oc0 = Some c0 /\ oc2 = Some c2 /\ ~ is_extremum (kind_of m) c0 c1 c2) ->
+  run_method K me m oc0 c1 oc2 = MOk 0 c1 (k_stopped K).
+Proof. exact (run_method_stop K). Qed.
+
+Theorem C06_method_go : forall me m c0 c1 c2,
+  is_extremum (kind_of m) c0 c1 c2 -> exists sh co, run_method K me m (Some c0) c1 (Some c2) = MOk sh co 0.
+Proof. exact (run_method_go K). Qed.
 
 (* the closed forms ARE the optimum of the symmetric V / of the parabola through the three points
    (a minimum for a cost, a maximum for a similarity), and that optimum is unique *)
@@ -77,6 +120,108 @@ Theorem C06_parabola_optimum_unique : forall k c0 c1 c2 x y,
   is_parabola_optimum k c0 c1 c2 x y -> x == quad_x c0 c1 c2 /\ y == quad_y c0 c1 c2.
 Proof. exact parabola_optimum_unique. Qed.
 
+(* ------------------------------------------------------------------ one pixel of loop_refinement *)
+
+Section Pixel.
+  Variables (me : method) (m : measure) (dmin dmax : Q) (s : Z).
+  Hypothesis Hs : (0 < s)%Z.                      (* subpix: 1, 2, 4 -- any positive integer *)
+  Let valid := is_valid K.
+  Let fits := cv_fits dmin dmax s.
+  Let inside := in_interval dmin dmax.
+  Let step := loop_pixel K me m dmin dmax s.
+
+  (* invalid pixels: disparity and flags untouched, coefficient NaN -- whatever they carry (NaN,
+     invalid_disparity, any cost row) *)
+  Theorem C06_pixel_invalid_untouched : forall cv disp mask,
+    ~ valid mask -> step cv disp mask = POk disp None mask.
+  Proof. exact (pixel_invalid K me m dmin dmax s). Qed.
+
+  (* a valid pixel holding ANY disparity of the interval: the step returns (no exception, no read
+     outside the cost row); the new disparity is in the interval, at most half a sample from the one
+     received; the mask is the old one or the old one with bit 3; the stored coefficient is never worse
+     than the cost of the pixel's sample; a pixel whose sample has a NaN cost is left as it is *)
+  Theorem C06_pixel_props : forall cv d mask r,
+    valid mask -> fits cv -> inside d -> step cv (Some d) mask = r ->
+    exists d' c' mask', r = POk (Some d') c' mask'
+      /\ inside d'
+      /\ Qabs (d' - d) * inject_Z s <= 1 # 2
+      /\ (mask' = mask \/ mask' = Z.lor mask bit3)
+      /\ (forall c1, cost_at cv (sample_index dmin s d) = Some c1 ->
+            exists co, c' = Some co /\ not_worse (kind_of m) co c1)
+      /\ (cost_at cv (sample_index dmin s d) = None -> d' = d /\ c' = None /\ mask' = mask).
+  Proof. exact (pixel_props K C06_consts_wf me m dmin dmax s Hs). Qed.
+
+  Theorem C06_pixel_total : forall cv disp mask,
+    fits cv -> (valid mask -> exists d, disp = Some d /\ inside d) ->
+    exists d' c' mask', step cv disp mask = POk d' c' mask'.
+  Proof. exact (pixel_total K C06_consts_wf me m dmin dmax s Hs). Qed.
+
+  (* the bit-3 clause, both directions.  must_stop (Spec/Refine.v) = less than a whole sample between
+     the disparity and an end of the interval, or a NaN neighbour, or the sample is not an extremum of
+     its neighbours.  For a disparity that is itself a sample "less than a whole sample" is "d = dmin or
+     d = dmax" (C06_near_end_on_grid). *)
+  Theorem C06_pixel_bit3_iff : forall cv d mask c1,
+    valid mask -> fits cv -> inside d ->
+    let k := sample_index dmin s d in
+    cost_at cv k = Some c1 ->
+    (must_stop (kind_of m) dmin dmax s cv d c1 ->
+       exists d' c', step cv (Some d) mask = POk (Some d') (Some c') (Z.lor mask bit3) /\ d' == d /\ c' == c1)
+    /\ (~ must_stop (kind_of m) dmin dmax s cv d c1 ->
+        exists c0 c2 sh co, cost_at cv (k - 1) = Some c0 /\ cost_at cv (k + 1) = Some c2
+          /\ is_extremum (kind_of m) c0 c1 c2
+          /\ run_method K me m (Some c0) c1 (Some c2) = MOk sh co 0
+          /\ step cv (Some d) mask = POk (Some (Qred (d + sh / inject_Z s))) (Some (Qred co)) mask).
+  Proof. exact (pixel_bit3_iff K C06_consts_wf me m dmin dmax s Hs). Qed.
+
+  (* flags, for EVERY input on which the step returns (reachable or not): the mask is the old one or
+     the old one with bit 3 -- so no other bit changes, bit 3 is never cleared (a pixel already
+     carrying bit 3 keeps exactly its mask), and validity is unchanged *)
+  Theorem C06_pixel_other_bits : forall cv disp mask d' c' mask',
+    step cv disp mask = POk d' c' mask' ->
+    other_bits mask' = other_bits mask
+    /\ (Z.testbit mask 3 = true -> Z.testbit mask' 3 = true)
+    /\ Z.land mask' (k_invalid K) = Z.land mask (k_invalid K).
+  Proof.
+    intros cv disp mask d' c' mask' H.
+    exact (bits_of_step K C06_consts_wf mask mask' (pixel_bits K C06_consts_wf me m dmin dmax s _ _ _ _ _ _ H)).
+  Qed.
+
+  (* a pixel that moves: its sample is an extremum of two NUMERIC neighbouring costs, there is a whole
+     sample on each side, its mask is unchanged.  With per-pixel disparity grids the costs outside a
+     pixel's own interval are NaN (C02/C09): for a received disparity that is a sample, the refined one
+     therefore lies between two samples of the pixel's own interval. *)
+  Theorem C06_pixel_moved_costed : forall cv d mask d' c' mask',
+    valid mask -> fits cv -> inside d ->
+    step cv (Some d) mask = POk (Some d') c' mask' -> ~ d' == d ->
+    exists c0 c1 c2, cost_at cv (sample_index dmin s d - 1) = Some c0
+                     /\ cost_at cv (sample_index dmin s d) = Some c1
+                     /\ cost_at cv (sample_index dmin s d + 1) = Some c2
+                     /\ is_extremum (kind_of m) c0 c1 c2
+                     /\ ~ near_end dmin dmax s d
+                     /\ mask' = mask.
+  Proof. exact (pixel_moved_costed K C06_consts_wf me m dmin dmax s Hs). Qed.
+
+  (* on the sampling grid the end test is the one the property names: the sample IS an end *)
+  Theorem C06_near_end_on_grid : forall k, inject_Z k == (dmax - dmin) * inject_Z s ->
+    forall i, (0 <= i <= k)%Z ->
+    (near_end dmin dmax s (dmin + inject_Z i / inject_Z s) <-> (i = 0 \/ i = k)%Z).
+  Proof. exact (near_end_on_grid dmin dmax s Hs). Qed.
+End Pixel.
+
+(* ------------------------------------------------------------------ whole maps, repeated refinement *)
+
+(* Any segment refinement, refinement.1, ... (methods mixed at will, any length) applied to any map
+   of pixels satisfying the invariant: the model never raises and never reads outside a cost row; the
+   flags of every pixel differ from the initial ones at most by bit 3 being raised (never 8 -> 16),
+   validity is unchanged, and the final map satisfies the invariant again. *)
+Theorem C06_steps_total_and_flags : forall m dmin dmax s, (0 < s)%Z ->
+  forall mes px last, Forall (pixel_ok K dmin dmax s) px ->
+  exists l, refine_steps K mes m dmin dmax s px last = IOk l
+    /\ ((mes = [] /\ l = last)
+        \/ (Forall2 (fun p t => flags_kept K (px_mask p) (out_mask t)) px l
+            /\ Forall (pixel_ok K dmin dmax s) (reload px l))).
+Proof. exact (refine_steps_ok K C06_consts_wf). Qed.
+
 (* Non-vacuity: the first pixel of tests/test_refinement.py (costs 32.5, 28, 34.5, sad). *)
 Example C06_example_fits :
   is_extremum Cost (65 # 2) 28 (69 # 2)
@@ -87,6 +232,19 @@ Example C06_example_fits :
 Proof.
   split; [split; unfold not_worse; discriminate|].
   split; eexists; eexists; (split; [reflexivity|split; reflexivity]).
+Qed.
+
+(* Non-vacuity of the pixel theorems: interval [-2,2], subpix 2, nine costs, an off-grid disparity 3/8
+   (as a bilateral filter leaves it) whose sample is index 4 (disparity 0): valid, fits, inside, refined
+   by 1/16 = (1/8)/subpix. *)
+Example C06_example_pixel :
+  let cv := map (fun z => Some (inject_Z z)) [9; 8; 7; 6; 2; 5; 7; 8; 9]%Z in
+  is_valid K 4 /\ cv_fits (-2) 2 2 cv /\ in_interval (-2) 2 (3 # 8)
+  /\ sample_index (-2) 2 (3 # 8) = 4%Z /\ ~ near_end (-2) 2 2 (3 # 8)
+  /\ loop_pixel K Vfit MMin (-2) 2 2 cv (Some (3 # 8)) 4 = POk (Some (7 # 16)) (Some (3 # 2)) 4.
+Proof.
+  cbv zeta. split; [reflexivity|]. split; [reflexivity|]. split; [split; discriminate|].
+  split; [reflexivity|]. split; [intros [H|H]; discriminate H|]. vm_compute. reflexivity.
 Qed.
 
 Print Assumptions C06_consts_wf.
@@ -101,3 +259,15 @@ Print Assumptions C06_vfit_optimum_unique.
 Print Assumptions C06_vfit_apex_optimal.
 Print Assumptions C06_quad_closed_form_is_optimum.
 Print Assumptions C06_parabola_optimum_unique.
+Print Assumptions C06_vfit_total.
+Print Assumptions C06_quad_total.
+Print Assumptions C06_method_stop.
+Print Assumptions C06_method_go.
+Print Assumptions C06_pixel_invalid_untouched.
+Print Assumptions C06_pixel_props.
+Print Assumptions C06_pixel_total.
+Print Assumptions C06_pixel_bit3_iff.
+Print Assumptions C06_pixel_other_bits.
+Print Assumptions C06_pixel_moved_costed.
+Print Assumptions C06_near_end_on_grid.
+Print Assumptions C06_steps_total_and_flags.
